@@ -49,6 +49,31 @@ func (c *wireQueryCircuit) Define(api frontend.API) error {
 	return err
 }
 
+// emulated elements that are pre-allocated in the circuit value (emulated.ValueOf) and used directly by operations that
+// mark their argument (AssertIsInRange, ReduceStrict): state kept in the circuit value must not survive into the next
+// compilation of the same value
+type emuPreallocCircuit struct {
+	X, Y emulated.Element[emparams.Secp256k1Fp]
+	Z    emulated.Element[emparams.Secp256k1Fp] `gnark:",public"`
+}
+
+func newEmuPrealloc() *emuPreallocCircuit {
+	return &emuPreallocCircuit{X: emulated.ValueOf[emparams.Secp256k1Fp](0), Y: emulated.ValueOf[emparams.Secp256k1Fp](0), Z: emulated.ValueOf[emparams.Secp256k1Fp](0)}
+}
+
+func (c *emuPreallocCircuit) Define(api frontend.API) error {
+	f, err := emulated.NewField[emparams.Secp256k1Fp](api)
+	if err != nil {
+		return err
+	}
+	f.AssertIsInRange(&c.X)
+	y := f.ReduceStrict(&c.Y)
+	f.AssertIsEqual(f.Mul(&c.X, y), &c.Z)
+	bits := f.ToBitsCanonical(&c.Z)
+	api.AssertIsBoolean(bits[0])
+	return nil
+}
+
 type emuCircuit struct {
 	X, Y emulated.Element[emparams.Secp256k1Fp]
 	Z    emulated.Element[emparams.Secp256k1Fp] `gnark:",public"`
@@ -136,6 +161,7 @@ func c11Circuits(seed uint64, thorough bool) []namedCircuit {
 			out = append(out, namedCircuit{fmt.Sprintf("lookup%d", m), t, func() frontend.Circuit { return &lookupCircuit{mode: m} }})
 		}
 		out = append(out, namedCircuit{"emulated+rangecheck", t, func() frontend.Circuit { return &emuCircuit{} }})
+		out = append(out, namedCircuit{"emulated-preallocated", t, func() frontend.Circuit { return newEmuPrealloc() }})
 		out = append(out, namedCircuit{"cm2", t, func() frontend.Circuit { return &cm2{} }})
 		out = append(out, namedCircuit{"varmod", t, func() frontend.Circuit { return &varModCircuit{} }})
 		w2 := make([]int, 64)
